@@ -36,7 +36,8 @@ RULE = ('Fixture: 2 100-block chain, 15 scripts with 3 533..3 547 confirmed hist
         'is dropped at the next notification and no status equal to the hash of a proper non-empty '
         'prefix of the true history is ever sent; L < limit -> the complete history (length L) and '
         'the true status. Non-trivial = L in {limit-1, limit, limit+1} or a headers request that '
-        'crosses the 2016 cap or the chain end.')
+        'crosses the 2016 cap or the chain end.' 
+        'pop step: after the block that takes a script to its limit, a reorganisation takes that block away; history (twice) and a fresh subscribe must answer from the shorter history. A third of cases run on physical meta files of 2.5 headers / 3.1 tx hashes (node.META_SIZES) so reads straddle files.')
 ASSUMPTIONS = ['FakeDaemon models bitcoind', 'history fixture uses generation-like transactions '
                '(each pays the straddling scripts once, so history length = number of such txs)',
                'a null status in the notification that drops a subscription is recorded, not judged']
